@@ -15,17 +15,25 @@ theorem pairwiseB_mono {α : Type} (r r' : α → α → Bool) (h : ∀ a b, r a
 theorem sidSorted_of_okPair (S : Schema) (l : List DNode) (h : pairwiseB (okPair S) l = true) : sidSorted l = true :=
   pairwiseB_mono _ _ (fun a b hab => by simpa [sidLe] using okPair_le hab) l h
 
-theorem keysOk_take (S : Schema) (s : Nat) : ∀ (n : Nat) (ks : List DNode), keysOk S s n ks = true →
-    n ≤ listKeys S s → ∀ k ∈ ks.take n, S.isKey k.sid = true ∧ k.sid ≤ s + listKeys S s
-  | 0, _, _, _ => by simp
-  | n + 1, [], h, _ => by simp [keysOk] at h
-  | n + 1, k :: ks, h, hn => by
-    simp only [keysOk, Bool.and_eq_true, beq_iff_eq] at h
+theorem keysSeq_le (S : Schema) (s : Nat) : ∀ (l : List DNode) (i : Nat), keysSeq S s i l = true →
+    ∀ k ∈ l, k.sid ≤ s + listKeys S s
+  | [], _, _ => by simp
+  | k :: ks, i, h => by
+    simp only [keysSeq, Bool.and_eq_true, beq_iff_eq] at h
+    have hlen : ∀ (l : List DNode) (j : Nat), keysSeq S s j l = true → j + l.length = listKeys S s := by
+      intro l
+      induction l with
+      | nil => intro j hj; simpa [keysSeq] using hj
+      | cons a as ih =>
+        intro j hj
+        simp only [keysSeq, Bool.and_eq_true] at hj
+        have := ih (j + 1) hj.2
+        simp only [List.length_cons]; omega
+    have hl := hlen ks (i + 1) h.2
     intro z hz
-    simp only [List.take_succ_cons, List.mem_cons] at hz
-    rcases hz with rfl | hz
-    · exact ⟨h.1.2, by rw [h.1.1.2]; omega⟩
-    · exact keysOk_take S s n ks h.2 (by omega) z hz
+    rcases List.mem_cons.1 hz with rfl | hz
+    · rw [h.1.2]; omega
+    · exact keysSeq_le S s ks (i + 1) h.2 z hz
 
 mutual
 theorem lvlOk_of_wf (S : Schema) : ∀ (p : Option Nat) (n : DNode), shapeNode S p n = true → ordNode S n = true →
@@ -40,11 +48,12 @@ theorem lvlOk_of_wf (S : Schema) : ∀ (p : Option Nat) (n : DNode), shapeNode S
     simp only [lvlOk, Bool.and_eq_true, List.all_eq_true]
     refine ⟨⟨⟨hi, sidSorted_of_okPair S ks ho.1⟩, ?_⟩, lvlOkL_of_wf S (some s) ks hall ho.2⟩
     intro c hc
-    have hsplit : c ∈ ks.take (listKeys S s) ∨ c ∈ ks.drop (listKeys S s) := by
-      rw [← List.mem_append, List.take_append_drop]; exact hc
+    have hsplit : c ∈ keysOf S ks ∨ c ∈ noKeys S ks := by
+      rw [← List.mem_append]; simpa [keysOf, noKeys, List.takeWhile_append_dropWhile] using hc
     rcases hsplit with h1 | h1
-    · have := keysOk_take S s _ ks hk (Nat.le_refl _) c h1
-      simp [keyQ, this.1, this.2]
+    · have hkey : S.isKey c.sid = true := mem_takeWhile_p _ _ c h1
+      have := keysSeq_le S s _ 0 hk c h1
+      simp [keyQ, hkey, this]
     · have := hd c h1
       simp only [keyQ, this.1]
       have : ¬ c.sid ≤ s + listKeys S s := by omega
